@@ -2,6 +2,7 @@ package c18
 
 import (
 	"os"
+	"sync"
 	"fmt"
 	"regexp"
 	"sort"
@@ -144,7 +145,55 @@ type world struct {
 
 	labels map[string]int
 	sent   []string // written-out case: every command line sent, with the connection
-	nAnon  int
+
+	// crash watch: a panic of a gluon goroutine leaves its client without an answer; the watcher then closes the
+	// harness connections so that the blocked read returns at once instead of after the client watchdog
+	mu      sync.Mutex
+	tracked []*imapc.Client
+	stop    chan struct{}
+}
+
+func (w *world) track(cl *imapc.Client) {
+	w.mu.Lock()
+	defer w.mu.Unlock()
+
+	w.tracked = append(w.tracked, cl)
+}
+
+func (w *world) untrack(cl *imapc.Client) {
+	w.mu.Lock()
+	defer w.mu.Unlock()
+
+	for i, c := range w.tracked {
+		if c == cl {
+			w.tracked = append(w.tracked[:i], w.tracked[i+1:]...)
+			return
+		}
+	}
+}
+
+func (w *world) watch() {
+	tick := time.NewTicker(20 * time.Millisecond)
+	defer tick.Stop()
+
+	for {
+		select {
+		case <-w.stop:
+			return
+		case <-tick.C:
+			if len(w.b.Panics.Get()) == 0 {
+				continue
+			}
+
+			w.mu.Lock()
+			for _, c := range w.tracked {
+				_ = c.Conn().Close()
+			}
+			w.mu.Unlock()
+
+			return
+		}
+	}
 }
 
 func (w *world) label(l string) { w.labels[l]++ }
@@ -187,7 +236,9 @@ func newWorld(t failer, creds []cred, perBox int) *world {
 		t.Fatalf("bed: %v", err)
 	}
 
-	w := &world{t: t, b: b, creds: creds, labels: map[string]int{}}
+	w := &world{t: t, b: b, creds: creds, labels: map[string]int{}, stop: make(chan struct{})}
+
+	go w.watch()
 	w.base = make([]*userSnap, len(creds))
 	w.dirty = make([]bool, len(creds))
 
@@ -270,6 +321,12 @@ func newWorld(t failer, creds []cred, perBox int) *world {
 }
 
 func (w *world) close() {
+	select {
+	case <-w.stop:
+	default:
+		close(w.stop)
+	}
+
 	for _, c := range w.conns {
 		c.cl.Close()
 	}
@@ -285,6 +342,8 @@ func (w *world) dial() *conn {
 	if err != nil {
 		w.fatalf("harness: dial: %v", err)
 	}
+
+	w.track(s.Client)
 
 	c := &conn{idx: idx, name: s.Name, cl: s.Client, user: -1, visited: map[pstate]bool{}}
 	c.enter(stNotAuth)
@@ -592,7 +651,12 @@ func (w *world) observe(user int) *userSnap {
 		w.fatalf("harness: observer dial: %v", err)
 	}
 
-	defer cl.Close()
+	w.track(cl)
+
+	defer func() {
+		w.untrack(cl)
+		cl.Close()
+	}()
 
 	w.b.Hist.Add("obs: fresh view of user %d (%q)", user, w.creds[user].User)
 
